@@ -566,7 +566,8 @@ func (e *Env) contractForm(name string, n *ast.CallExpr) (Value, bool) {
 			return Scalar{Ite(c, sa.T, sb.T), mathIntType}, true
 		}
 		return mergeVal(c, a, b), true
-	case "forall", "exists":
+	case "forall", "exists", "forallx":
+		// forallx: like forall, but a constant range is always expanded (up to 1024 instances)
 		return e.quantifier(name, n), true
 	case "floordiv":
 		// floordiv(a, b): floor of a/b for b > 0 (SMT-LIB integer division)
@@ -765,13 +766,13 @@ func (e *Env) quantifier(kind string, n *ast.CallExpr) Value {
 	if !okH {
 		h, okH = e.x.simplifyWithPC(e.st, hi).Int64()
 	}
-	if okL && okH && h-l <= 256 {
+	if okL && okH && (h-l <= 128 || (kind == "forallx" && h-l <= 1024)) {
 		var cs []*Term
 		for i := l; i < h; i++ {
 			sub := e.sub(map[string]Value{id.Name: Scalar{IntC(i), intT}})
 			cs = append(cs, sub.boolTerm(sub.expr(n.Args[3])))
 		}
-		if kind == "forall" {
+		if kind == "forall" || kind == "forallx" {
 			return Scalar{And(cs...), boolT}
 		}
 		return Scalar{Or(cs...), boolT}
@@ -786,7 +787,7 @@ func (e *Env) quantifier(kind string, n *ast.CallExpr) Value {
 	}
 	body := sub.boolTerm(sub.expr(n.Args[3]))
 	rng := And(Le(lo, k), Lt(k, hi))
-	if kind == "forall" {
+	if kind == "forall" || kind == "forallx" {
 		return Scalar{Forall([]*Term{k}, Implies(rng, body)), boolT}
 	}
 	return Scalar{Exists([]*Term{k}, And(rng, body)), boolT}
